@@ -142,8 +142,8 @@ def shape_rules(ctx, I, R1, R4, R2, only_undefined=False):
                     o = I.construct(me, [], {}, None, None)
                     return I.call_func(me.find_method("resolve_all_macros"), [], {
                         "macros": lift(I, macros), "pattern_tree": lift(I, {"$and": pattern})}, o, None, None)
-                so = Obj(y2r, {"loaded_file": lift(I, {"macros": macros, "pattern": pattern}),
-                               "macros_from_terminal_filepath": NONE})
+                from ..models import new_yaml2regex
+                so = new_yaml2regex(I, lift(I, {"macros": macros, "pattern": pattern}))
                 return I.call_func(y2r.find_method("_get_pattern"), [], {}, so, None, None)
             paths = I.explore(thunk)
             construct = f"MacroExpander.resolve_all_macros[{label}]" if via == "expander" else f"Yaml2Regex._get_pattern[{label}]"
@@ -194,8 +194,8 @@ def _rest(ctx, I, me, y2r):
             I.run.user["docs"] = {"<LIB>": lib}
             r = NONE
             for k, doc in enumerate(seq):
-                so = Obj(y2r, {"loaded_file": _lift_plain(I, doc),
-                               "macros_from_terminal_filepath": ListV([Str((Hole("LIB", "path", True),))])})
+                from ..models import new_yaml2regex
+                so = new_yaml2regex(I, _lift_plain(I, doc), ListV([Str((Hole("LIB", "path", True),))]))
                 try:
                     r = I.call_func(y2r.find_method("_get_pattern"), [], {}, so, None, None)
                 except Exception as exc:  # the last compilation decides
@@ -220,8 +220,8 @@ def _rest(ctx, I, me, y2r):
 
             def thunk6(I, doc=doc):
                 I.run.user["docs"] = {"<LIB>": lib2}
-                so = Obj(y2r, {"loaded_file": lift(I, doc),
-                               "macros_from_terminal_filepath": ListV([Str((Hole("LIB", "path", True),))])})
+                from ..models import new_yaml2regex
+                so = new_yaml2regex(I, lift(I, doc), ListV([Str((Hole("LIB", "path", True),))]))
                 return I.call_func(y2r.find_method("_get_pattern"), [], {}, so, None, None)
             for p in Is.explore(thunk6):
                 left = leftovers(p.value) if p.kind == "return" else []
